@@ -466,6 +466,10 @@ class TableGroupCache(object):
         self._groups = {}
         self.extra_b_entries = {}
         self.extra_d_entries = {}
+        # Incremented whenever the extra entries change, so that anything
+        # derived from a table group (e.g. compiled templates) can tell that
+        # the group of the same key no longer has the same content.
+        self.extra_entries_generation = 0
 
     def get(self, table_group_key):
         if table_group_key not in self._groups:
@@ -492,6 +496,7 @@ class TableGroupCache(object):
     def add_extra_entries(self, b_entries, d_entries):
         self.extra_b_entries.update(b_entries)
         self.extra_d_entries.update(d_entries)
+        self.extra_entries_generation += 1
 
 
 class TableGroupCacheManager(object):
@@ -500,6 +505,10 @@ class TableGroupCacheManager(object):
     @classmethod
     def has_extra_entries(cls):
         return cls._TABLE_GROUP_CACHE.has_extra_entries()
+
+    @classmethod
+    def extra_entries_generation(cls):
+        return cls._TABLE_GROUP_CACHE.extra_entries_generation
 
     @classmethod
     def invalidate(cls):
